@@ -3,6 +3,7 @@ package main
 import (
 	"fmt"
 	"math/rand"
+	"sort"
 	"strconv"
 	"strings"
 	"time"
@@ -30,6 +31,9 @@ func c07ExpireNow(key string, how int) [][]string {
 // C06 matrix stay inside the current value; an implementation that re-creates the object when it has to grow would
 // lose the deadline only here.
 var c07SizeTemplates = [][]string{
+	// keyspace walks with every filter option: an expired key must not come back through any of them
+	{"SCAN", "0", "COUNT", "100", "TYPE", "string"}, {"SCAN", "0", "TYPE", "list", "COUNT", "100"}, {"SCAN", "0", "COUNT", "100", "TYPE", "hash"}, {"SCAN", "0", "COUNT", "100", "TYPE", "set"},
+	{"SCAN", "0", "MATCH", "t*", "COUNT", "100"}, {"SCAN", "0", "MATCH", "t?", "TYPE", "string", "COUNT", "100"}, {"KEYS", "t*"}, {"KEYS", "??"},
 	{"SETBIT", "K", "100", "1"}, {"SETBIT", "K", "7", "0"}, {"BITFIELD", "K", "SET", "u8", "#9", "255"}, {"BITFIELD", "K", "INCRBY", "u16", "200", "1"}, {"BITFIELD", "K", "OVERFLOW", "FAIL", "INCRBY", "u8", "0", "300"},
 	{"BITFIELD", "K", "GET", "u8", "400"}, {"SETRANGE", "K", "20", "tail"}, {"SETRANGE", "K", "0", ""}, {"APPEND", "K", ""}, {"APPEND", "K", "a-much-longer-tail-than-the-value-itself"}, {"INCRBY", "K", "999999"}, {"DECRBY", "K", "11"}, {"INCRBYFLOAT", "K", "0.25"},
 	{"LPUSH", "K", "p1", "p2", "p3", "p4", "p5", "p6", "p7", "p8"}, {"LINSERT", "K", "AFTER", "c", "x"}, {"LSET", "K", "-1", "x"}, {"LREM", "K", "-1", "a"}, {"LTRIM", "K", "1", "-1"}, {"LPOP", "K", "2"}, {"RPOP", "K", "2"},
@@ -378,13 +382,162 @@ func c07Gen(rng *rand.Rand, m *model.Model, keys []string) []string {
 
 func pick3(rng *rand.Rand) int { return []int{100, 300, -10, 0, 1000}[rng.Intn(5)] }
 
+// c07KeyspaceWalks: SCAN with every filter combination and KEYS over a keyspace that holds, per type, a live key, a
+// key whose deadline has passed, an UNLINKed key and a key removed by EXPIRE 0 (the last three are still stored):
+// complete iterations must return exactly the live keys that pass the filter.
+func c07KeyspaceWalks(r *verdict.Run) {
+	c, err := startChild(false)
+	if err != nil {
+		r.Inconclusive("cannot start child")
+		return
+	}
+	defer c.Stop()
+	e, err := startEmu(c, "")
+	if err != nil {
+		r.Inconclusive("infra: " + err.Error())
+		return
+	}
+	cn, err := e.dial()
+	if err != nil {
+		return
+	}
+	defer cn.Close()
+	cn.Timeout = 5 * time.Second
+	make1 := func(typ, name string) {
+		switch typ {
+		case "string":
+			cn.Do("SET", name, "v")
+		case "list":
+			cn.Do("RPUSH", name, "a", "b")
+		case "hash":
+			cn.Do("HSET", name, "f", "v")
+		case "set":
+			cn.Do("SADD", name, "m")
+		}
+	}
+	live := map[string]string{}
+	for _, typ := range []string{"string", "list", "hash", "set"} {
+		for i := 0; i < 6; i++ {
+			n := fmt.Sprintf("%s%d-live", typ[:2], i)
+			make1(typ, n)
+			live[n] = typ
+			for _, how := range []string{"passed", "unlinked", "expire0", "volatile"} {
+				d := fmt.Sprintf("%s%d-%s", typ[:2], i, how)
+				make1(typ, d)
+				switch how {
+				case "passed":
+					cn.Do("PEXPIREAT", d, "1")
+				case "unlinked":
+					cn.Do("UNLINK", d)
+				case "expire0":
+					cn.Do("EXPIRE", d, "0")
+				case "volatile":
+					cn.Do("EXPIRE", d, "1000")
+					live[d] = typ
+				}
+			}
+		}
+	}
+	walk := func(args ...string) (map[string]int, bool) {
+		got := map[string]int{}
+		cursor := "0"
+		for calls := 0; calls < 2000; calls++ {
+			v, err := cn.Do(append([]string{"SCAN", cursor}, args...)...)
+			v = model.Down(v)
+			if err != nil || v.Kind != '*' || len(v.Elems) != 2 {
+				return got, false
+			}
+			for _, el := range v.Elems[1].Elems {
+				got[el.Text()]++
+			}
+			cursor = v.Elems[0].Text()
+			if cursor == "0" {
+				return got, true
+			}
+		}
+		return got, false
+	}
+	type filt struct {
+		args []string
+		typ  string
+		pat  string
+	}
+	var filters []filt
+	for _, count := range []string{"1", "7", "1000"} {
+		filters = append(filters, filt{[]string{"COUNT", count}, "", ""})
+		for _, typ := range []string{"string", "list", "hash", "set", "zset"} {
+			filters = append(filters, filt{[]string{"COUNT", count, "TYPE", typ}, typ, ""}, filt{[]string{"TYPE", typ, "MATCH", "*-*", "COUNT", count}, typ, "*-*"})
+		}
+		filters = append(filters, filt{[]string{"MATCH", "s*", "COUNT", count}, "", "s*"}, filt{[]string{"MATCH", "*-passed", "COUNT", count}, "", "*-passed"}, filt{[]string{"MATCH", "??0-*", "COUNT", count, "TYPE", "hash"}, "hash", "??0-*"})
+	}
+	for _, f := range filters {
+		got, ok := walk(f.args...)
+		r.Eval(1)
+		name := strings.Join(f.args, " ")
+		if !ok {
+			r.Report("walk/iteration-failed", "SCAN "+name+": the iteration did not complete", nil)
+			continue
+		}
+		var extra, missing []string
+		for k := range got {
+			if t, isLive := live[k]; !isLive || (f.typ != "" && t != f.typ) || (f.pat != "" && !model.Glob(f.pat, k)) {
+				extra = append(extra, k)
+			}
+		}
+		for k, t := range live {
+			if (f.typ == "" || t == f.typ) && (f.pat == "" || model.Glob(f.pat, k)) && got[k] == 0 {
+				missing = append(missing, k)
+			}
+		}
+		sort.Strings(extra)
+		sort.Strings(missing)
+		if len(extra) > 0 {
+			r.Report("walk/scan-returns-keys-that-are-gone-or-filtered-out", fmt.Sprintf("SCAN %s returned %v (keys whose deadline has passed, that were unlinked, or that the filter excludes)", name, extra), map[string]any{"filter": f.args})
+		} else if len(missing) > 0 {
+			r.Report("walk/scan-misses-live-keys", fmt.Sprintf("SCAN %s did not return %v", name, missing), map[string]any{"filter": f.args})
+		} else {
+			r.Distinct("walk/" + name)
+		}
+	}
+	for _, pat := range []string{"*", "s*", "*-passed", "*-unlinked", "??0-*", "[lh]*-live"} {
+		v, err := cn.Do("KEYS", pat)
+		r.Eval(1)
+		if err != nil {
+			continue
+		}
+		var extra []string
+		n := 0
+		for _, el := range v.Elems {
+			if _, isLive := live[el.Text()]; !isLive || !model.Glob(pat, el.Text()) {
+				extra = append(extra, el.Text())
+			}
+			n++
+		}
+		want := 0
+		for k := range live {
+			if model.Glob(pat, k) {
+				want++
+			}
+		}
+		if len(extra) > 0 || n != want {
+			r.Report("walk/keys-returns-keys-that-are-gone", fmt.Sprintf("KEYS %s returned %d names (%d live ones match); not live or not matching: %v", pat, n, want, extra), nil)
+		} else {
+			r.Distinct("walk/keys/" + pat)
+		}
+	}
+	if v, _ := cn.Do("DBSIZE"); v.Int != int64(len(live)) {
+		r.Report("walk/dbsize-counts-keys-that-are-gone", fmt.Sprintf("DBSIZE = %s with %d live keys", v, len(live)), nil)
+	}
+}
+
 func checkC07(r *verdict.Run) {
 	r.Rule = "(1) lifetime-phase matrix: every command template (the canonical invocations plus 55 size-changing in-place modifications and replacing forms whose target is among their operands) x key type x {deadline 100 s ahead, deadline passed but object still stored (PEXPIREAT 1 / EXPIRE -1 / EXPIREAT 1), operand keys expired}: an expired key must behave as missing for every command, TTL preserved/cleared per command; " +
-		"(2) EXPIRE/PEXPIRE/EXPIREAT/PEXPIREAT x {none,NX,XX,GT,LT} x {no deadline, later, earlier} x {positive, zero, negative} and TTL/PTTL/EXPIRETIME/PEXPIRETIME/PERSIST/GETEX/SET option sequences; " +
+		"(1b) complete SCAN iterations with every combination of COUNT / TYPE / MATCH, and KEYS, over a keyspace with live, volatile, passed-deadline, unlinked and EXPIRE-0 keys of every type: exactly the live keys that pass the filter; (2) EXPIRE/PEXPIRE/EXPIREAT/PEXPIREAT x {none,NX,XX,GT,LT} x {no deadline, later, earlier} x {positive, zero, negative} and TTL/PTTL/EXPIRETIME/PEXPIRETIME/PERSIST/GETEX/SET option sequences; " +
 		"(2b) every deadline-setting form (EXPIRE family, SET/GETEX EX/PX/EXAT/PXAT, SETEX, PSETEX) with extreme values around 292 years, year 9999, 2^53 ms and the int64 limits, positive and negative: stored or refused as Redis does, never a vanished or persistent key; " +
 		"(2c) commands queued in MULTI while the key is alive and executed by EXEC after its deadline, and blocking moves served after their destination expired while they waited: deadlines are judged when a command executes; (2d) after a clean shutdown and restart on a persist path persistent keys still report -1 and behave as persistent, volatile keys keep their deadline; " +
 		"(3) transition batches: keys of 4 types with 120-400 ms TTLs read by rotating commands across the deadline. All against the reference model with an interval clock: an observation is judged only when its [send, receive] interval lies entirely before or after the deadline interval (no wall-clock tolerance constants). " +
 		"distinct = matrix cells + (command, flag, state) tuples + transition reads"
+	c07KeyspaceWalks(r)
 	c07PhaseMatrix(r)
 	c07ExpireSemantics(r)
 	c07ExtremeTimes(r)
